@@ -15,21 +15,26 @@ var seqAssume = []string{
 var plans = map[string]PropPlan{
 	"C01": {
 		Quick: []Plan{{Scenario: "lb", Kind: "seq"}}, Thorough: []Plan{{Scenario: "lb", Kind: "seq"}},
-		QuickSecs: 120, ThoroughSecs: 1500, Assumptions: seqAssume,
+		QuickSecs: 90, ThoroughSecs: 1500, Assumptions: seqAssume,
 	},
 	"C02": {
 		Quick: []Plan{{Scenario: "lb", Kind: "seq"}}, Thorough: []Plan{{Scenario: "lb", Kind: "seq"}},
-		QuickSecs: 120, ThoroughSecs: 1500, Assumptions: seqAssume,
+		QuickSecs: 90, ThoroughSecs: 1500, Assumptions: seqAssume,
 	},
 	"C03": {
 		Quick: []Plan{{Scenario: "lb", Kind: "seq"}}, Thorough: []Plan{{Scenario: "lb", Kind: "seq"}},
-		QuickSecs: 120, ThoroughSecs: 1500, Assumptions: seqAssume,
+		QuickSecs: 90, ThoroughSecs: 1500, Assumptions: seqAssume,
 	},
 	"C09": {
 		Quick:     []Plan{{Scenario: "conn.lifecycle", PB: 2, DB: 0}},
 		Thorough:  []Plan{{Scenario: "conn.lifecycle", PB: 3, DB: 0}},
 		QuickSecs: 90, ThoroughSecs: 900,
 		Assumptions: schedAssume,
+	},
+	"C16": {
+		Quick: []Plan{{Scenario: "adapters", Kind: "seq"}}, Thorough: []Plan{{Scenario: "adapters", Kind: "seq"}},
+		QuickSecs: 90, ThoroughSecs: 1200,
+		Assumptions: []string{"scripted sources/sinks cover the io.Reader/io.Writer contract answers listed in DESIGN.md 3/C16; after its script a source answers (0, io.EOF) and a sink accepts everything", "a call may fail although the source delivered data together with the error; the stream (total bytes after a drain) is what is compared"},
 	},
 	"C17": {
 		Quick:     []Plan{{Scenario: "mux.shardq", PB: 2, DB: 1}},
